@@ -197,8 +197,36 @@ pub fn run(tier: &str) -> Result<Report, String> {
                 }
             }
         }
+        // long EXTENDED batches: wild-cards and restricted domains mixed with plain formulae
+        let (desc, labels) = crate::sweep::label_families(&b, 1).remove(0);
+        let ectx = NetCtx::new(b.clone(), labels, &desc);
+        let mut ext: Vec<F> = Gen::new(Alphabet::extended(2, 2, 1, 2)).closed_up_to(3);
+        ext.retain(|f| f.size() >= 2);
+        for (oi, stride) in [7usize, 13, 1].iter().enumerate() {
+            let idx: Vec<usize> = (0..n).map(|i| (i * stride * 5 + oi * 11) % ext.len()).collect();
+            let texts: Vec<String> = idx.iter().map(|i| ext[*i].show(&ectx.user)).collect();
+            let ts: Vec<&str> = texts.iter().map(|s| s.as_str()).collect();
+            let single: Vec<Result<GraphColoredVertices, String>> = texts.iter().map(|t| mc::model_check_extended_formula_dirty(t, &b.graph, &ectx.sets)).collect();
+            let single_clean: Vec<Result<GraphColoredVertices, String>> = texts.iter().map(|t| mc::model_check_extended_formula(t, &b.graph, &ectx.sets)).collect();
+            let runs: Vec<(&str, &Vec<Result<GraphColoredVertices, String>>, Result<Result<Vec<GraphColoredVertices>, String>, String>)> = vec![
+                ("model_check_multiple_extended_formulae_dirty", &single, guarded(AssertUnwindSafe(|| mc::model_check_multiple_extended_formulae_dirty(ts.clone(), &b.graph, &ectx.sets)))),
+                ("model_check_multiple_extended_formulae", &single_clean, guarded(AssertUnwindSafe(|| mc::model_check_multiple_extended_formulae(ts.clone(), &b.graph, &ectx.sets)))),
+            ];
+            for (name, reference, r) in runs {
+                n_long += 1;
+                let what = match r {
+                    Ok(Ok(v)) if v.len() == n => (0..n).find(|i| reference[*i].as_ref().map(|s| s != &v[*i]).unwrap_or(true)).map(|i| format!("position {i} ({}) does not carry the result of its formula", texts[i])),
+                    Ok(Ok(v)) => Some(format!("{} results for {n} formulae", v.len())),
+                    Ok(Err(e)) => Some(format!("Err: {e}")),
+                    Err(p) => Some(format!("panic: {p}")),
+                };
+                if let Some(w) = what {
+                    rep.violations.push(Violation { case: json!({"kind": "none"}), what: format!("{name} on a batch of {n} extended formulae (order {oi}, labels {desc}) on con2: {w}"), size: 901 });
+                }
+            }
+        }
         rep.evaluations += n_long * n as u64;
-        rep.set("long_batches", json!({"formulae_per_batch": n, "orders": 3, "entry_points": 3}));
+        rep.set("long_batches", json!({"formulae_per_batch": n, "orders": 3, "entry_points": 5}));
     }
     // sharing inside one formula on the template families and on all small extended formulae
     let mut n_single = 0u64;
@@ -237,6 +265,6 @@ pub fn run(tier: &str) -> Result<Report, String> {
         }
     }
     rep.set("single_formula_shared_vs_unshared_cases", json!(n_single));
-    rep.rule = "(also: three long batches of 48 / 96 node-bounded formulae (tied heights, three orders) through model_check_multiple_formulae_dirty / _extended_formulae_dirty / _trees_dirty, position by position against single evaluation; the same exploration and every ordered list of up to 5 (thorough 6) formulae over a three-formula alphabet - repetition patterns such as [A, A, B, B]) stateright BFS over the real EvalContext: initial states = every multiset of size <= max_batch_len over the collision alphabet (marked as a batch exactly as the entry points do), transitions = real eval_node on any not-yet-evaluated position, states merged by (batch, set of evaluated positions, sha256 digest of the context). In every reached state the new result must equal (BDD equality) the result of the formula evaluated alone and with sharing disabled, and the explicit-state oracle; no panic. Every ordered list of length <= max_batch_len additionally goes through model_check_multiple_extended_formulae_dirty (twice, and with an observer), model_check_multiple_extended_formulae and, for plain lists, model_check_multiple_formulae_dirty. Plus alone-vs-unshared-vs-oracle for every template formula and small extended formula. distinct_nontrivial = number of distinct context digests reached".into();
+    rep.rule = "(also: three long batches of 48 / 96 node-bounded formulae (tied heights, three orders) through model_check_multiple_formulae_dirty / _extended_formulae_dirty / _trees_dirty, and of extended formulae (wild-cards, restricted domains mixed with plain ones) through model_check_multiple_extended_formulae(_dirty), position by position against single evaluation; the same exploration and every ordered list of up to 5 (thorough 6) formulae over a three-formula alphabet - repetition patterns such as [A, A, B, B]) stateright BFS over the real EvalContext: initial states = every multiset of size <= max_batch_len over the collision alphabet (marked as a batch exactly as the entry points do), transitions = real eval_node on any not-yet-evaluated position, states merged by (batch, set of evaluated positions, sha256 digest of the context). In every reached state the new result must equal (BDD equality) the result of the formula evaluated alone and with sharing disabled, and the explicit-state oracle; no panic. Every ordered list of length <= max_batch_len additionally goes through model_check_multiple_extended_formulae_dirty (twice, and with an observer), model_check_multiple_extended_formulae and, for plain lists, model_check_multiple_formulae_dirty. Plus alone-vs-unshared-vs-oracle for every template formula and small extended formula. distinct_nontrivial = number of distinct context digests reached".into();
     Ok(rep)
 }
